@@ -304,7 +304,7 @@ fn corpus_case(k: u64) -> Option<(Vec<u8>, Vec<String>)> {
             out.extend_from_slice(&[0xAA, 0xBB, 0xCC, 0xDD]);
             out.extend_from_slice(&payload[4 + 4 * n..]);
             replace_section(&mut m, SectionId::TypeTable, out);
-            Some((enc(&m), note("corpus: type table with a 4-byte gap before the first entry")))
+            Some((enc(&m), note("corpus: type table with a 4-byte gap before the first entry (e5dfde6)")))
         }
         9 => Some((Vec::new(), note("corpus: empty input"))),
         10 => {
